@@ -18,7 +18,12 @@ def run_one(sid, tiers=None):
     subprocess.check_call(["git", "-C", "/repo", "worktree", "add", "-q", "--detach", wt, "HEAD"])
     res = {}
     try:
-        subprocess.check_call(["git", "-C", wt, "apply", os.path.join(d, "patch.diff")])
+        if subprocess.run(["git", "-C", wt, "apply", os.path.join(d, "patch.diff")], capture_output=True).returncode != 0:
+            # later fix commits may have touched neighbouring lines: try a three-way merge before giving up
+            r3 = subprocess.run(["git", "-C", wt, "apply", "--3way", os.path.join(d, "patch.diff")], capture_output=True)
+            un = subprocess.run(["git", "-C", wt, "diff", "--name-only", "--diff-filter=U"], capture_output=True, text=True).stdout.strip()
+            if r3.returncode != 0 or un:
+                return meta, {("-", "patch"): (2, 0, ["STALE: patch.diff no longer applies to /repo HEAD - re-base it (see meta.json patch_refreshed of other entries)"], 0)}
         env = dict(os.environ)
         env["VERIF_REPO"] = wt
         env["VERIF_BUILD"] = f"/tmp/selftest-build-{os.getpid()}"
